@@ -4,15 +4,15 @@ from . import common as C
 from . import sem as S
 
 # property -> (families quick, families thorough)
-ALLF = ["F1", "F1b", "F2", "F3", "F4", "F5", "F6", "F7", "F8", "F9", "F10", "F13"]
+ALLF = ["F1", "F1b", "F2", "F3", "F4", "F5", "F6", "F7", "F8", "F9", "F10", "F11", "F13"]
 FAMILIES = {
-    "C01": (["F1", "F1b", "F2", "F3", "F4", "F5", "F6", "F7", "F9", "F10", "R"], ALLF + ["F14", "F20", "FC1", "FC2", "R"]),
-    "C02": (["F1b", "F2", "F3", "F4", "F8", "F9"], ALLF + ["R"]),
-    "C03": (["F1", "F1b", "F2", "F3", "F7", "F8", "F9", "R"], ALLF + ["FC2", "R"]),
+    "C01": (["F1", "F1b", "F2", "F3", "F4", "F5", "F6", "F7", "F9", "F10", "F11", "F14", "R"], ALLF + ["F14", "F20", "FC1", "FC2", "R"]),
+    "C02": (["F1b", "F2", "F3", "F4", "F8", "F9", "F14"], ALLF + ["F14", "R"]),
+    "C03": (["F1", "F1b", "F2", "F3", "F7", "F8", "F9", "F11", "R"], ALLF + ["FC2", "R"]),
     "C04": (["F8", "F5", "F6"], ["F8", "F1", "F1b", "F5", "F6", "F7", "F9"]),
     "C09": (["F1", "F5", "F4"], ["F1", "F2", "F4", "F5", "F8", "F9"]),
     "C13": (["F1", "F3", "F6", "F7", "F13"], ALLF + ["R"]),
-    "C16": (["F10", "F3", "F4"], ["F10", "F1", "F2", "F3", "F4", "F8"]),
+    "C16": (["F10", "F11", "F3", "F4"], ["F10", "F11", "F1", "F2", "F3", "F4", "F8"]),
     "C12": (["FC1", "FC2", "F6"], ["FC1", "FC2", "F6", "F1", "F13"]),
 }
 
